@@ -174,12 +174,12 @@ Proof.
     destruct (c_exam c); [split; [exact Hw|intros s0 H _; inversion H; subst; apply once_single; reflexivity]|].
     destruct (gate b s uidc true) as [[b0 o0]|] eqn:G; [|split; [exact Hw|intros s0 H _; inversion H; subst; apply once_single; reflexivity]].
     destruct (gate_Q _ _ _ _ _ _ (Hw _ _ E) G) as [Q0 Hn0].
-    destruct (admit_set w n b0 uidc set) as [[[b1 o1] sl]|] eqn:A.
+    destruct (admit_set w n b0 uidc set) as [[[b1a o1a] sl]|] eqn:A.
     2:{ cbn [fst snd]. split; [apply wQ_set; trivial|]. intros s0 H _. inversion H; subst s0. finish_once. apply notes_quiet; trivial. }
-    destruct (admit_set_Q _ _ _ _ _ _ _ _ Q0 A) as [Q1 Hn1].
+    destruct (admit_set_Q _ _ _ _ _ _ _ _ Q0 A) as [Q1a Hn1a]. use_flush b1a s Q1a b1 o1b Q1 Hn1b.
     destruct (smem "\Recent" flags || existsb reserved_kw flags).
     { cbn [fst snd]. split; [apply wQ_set; trivial|]. intros s0 H _. inversion H; subst s0. finish_once.
-      apply quiet_app; apply notes_quiet; trivial. }
+      repeat apply quiet_app; apply notes_quiet; trivial. }
     match goal with |- context [dispatch ?B ?D ?R] =>
       destruct (dispatch_Q B D R) as [Q3 Hn3]; [intros r Hr; apply (notes_at_note _ _ _ _ _ Hr)|apply (same_clients_Q b1); [reflexivity|exact Q1]|];
       destruct (dispatch B D R) as [b3 o2] end.
@@ -192,9 +192,9 @@ Proof.
     destruct (get_client b s) as [c|]; [|split; [exact Hw|intros s0 H _; inversion H; subst; apply once_single; reflexivity]].
     destruct (gate b s uidc true) as [[b0 o0]|] eqn:G; [|split; [exact Hw|intros s0 H _; inversion H; subst; apply once_single; reflexivity]].
     destruct (gate_Q _ _ _ _ _ _ (Hw _ _ E) G) as [Q0 Hn0].
-    destruct (admit_set w n b0 uidc set) as [[[b1 o1] sl]|] eqn:A.
+    destruct (admit_set w n b0 uidc set) as [[[b1a o1a] sl]|] eqn:A.
     2:{ cbn [fst snd]. split; [apply wQ_set; trivial|]. intros s0 H _. inversion H; subst s0. finish_once. apply notes_quiet; trivial. }
-    destruct (admit_set_Q _ _ _ _ _ _ _ _ Q0 A) as [Q1 Hn1].
+    destruct (admit_set_Q _ _ _ _ _ _ _ _ Q0 A) as [Q1a Hn1a]. use_flush b1a s Q1a b1 o1b Q1 Hn1b.
     match goal with |- context [dispatch ?B ?D ?R] =>
       destruct (dispatch_Q B D R) as [Q3 Hn3];
         [intros r Hr; apply (notes_at_note _ _ _ _ _ Hr)
@@ -207,8 +207,9 @@ Proof.
   - (* OSearch *)
     unfold in_mbox. destruct (sel w s) as [n|]; [|split; [exact Hw|intros s0 H _; inversion H; subst; apply once_single; reflexivity]].
     destruct (get_box w n) as [b|] eqn:E; [|split; [exact Hw|intros s0 H _; inversion H; subst; apply once_single; reflexivity]].
-    destruct (gate b s uidc false) as [[b0 o0]|] eqn:G; [|split; [exact Hw|intros s0 H _; inversion H; subst; apply once_single; reflexivity]].
-    destruct (gate_Q _ _ _ _ _ _ (Hw _ _ E) G) as [Q0 Hn0]. rewrite admit_is_resync. use_resync b0 Q0 b1 o1 Q1 Hn1.
+    destruct (gate b s uidc true) as [[b0 o0]|] eqn:G; [|split; [exact Hw|intros s0 H _; inversion H; subst; apply once_single; reflexivity]].
+    destruct (gate_Q _ _ _ _ _ _ (Hw _ _ E) G) as [Q0 Hn0]. rewrite admit_is_resync. use_resync b0 Q0 b1a o1a Q1a Hn1a.
+    use_flush b1a s Q1a b1 o1b Q1 Hn1b.
     cbn [fst snd]. split; [apply wQ_set; trivial|]. intros s0 H _. inversion H; subst s0.
     match goal with |- answered_once _ (_ ++ _ ++ [?a; ?b]) => change [a; b] with ([a] ++ [b]) end.
     finish_once. repeat apply quiet_app; try (apply notes_quiet; assumption). apply quiet_one. reflexivity.
